@@ -151,6 +151,7 @@ type poly struct {
 	extra  []v2.Vec // additional query points (corpus)
 	only   bool     // evaluate only the extra points
 	exact  bool     // every cut point is expected to lie exactly on its segment (axis-parallel edges)
+	mid    bool     // add the rows/columns midway between consecutive grid levels (strictly inside short walls)
 }
 
 func reverse(v []v2.Vec) []v2.Vec {
@@ -337,8 +338,114 @@ func genPolys(rng *Rng, tier string) []poly {
 			add("onsplit/edge-on-level2-line", fmt.Sprintf("u-rot%d%s", 90*q, tag), u, false)
 			u = rot90(u)
 		}
+		// ---- short walls ON split lines of every level (root, level 1, level 2, deepest): staircases
+		// whose risers and treads lie exactly on the quadtree lines and fit inside one deepest cell
+		// (a piece wholly inside a cell takes the early exit of lineIntersect), or span exactly one /
+		// two cells.  Both orientations, transposed copies; the grid gets mid rows/columns so that the
+		// rows strictly inside the walls are queried on both sides, near, far and outside the box.
+		type bbs struct{ x0, x1, y0, y1 float64 }
+		boxes := []bbs{{0, 200, 0, 200}}
+		if !quick {
+			boxes = append(boxes, bbs{-3, 5, 10, 18}, bbs{0.1, 0.1 + math.Pi, -7, -7 + math.Pi})
+		}
+		for bi, b := range boxes {
+			lx, ly := splitLines(b.x0, b.x1, b.y0, b.y1)
+			for mode := 0; mode < 3; mode++ {
+				nm := fmt.Sprintf("stairs-bb%d-%s%s", bi, []string{"short", "1cell", "2cell"}[mode], tag)
+				a := stairs(b.x0, b.x1, b.y0, b.y1, lx, ly, mode)
+				t := transpose(stairs(b.y0, b.y1, b.x0, b.x1, ly, lx, mode))
+				for _, e := range []struct {
+					n string
+					v []v2.Vec
+				}{{nm, a}, {nm + "/cw", reverse(a)}, {nm + "/T", t}, {nm + "/T/cw", reverse(t)}} {
+					if quick && mode > 0 && (e.n == nm+"/cw" || e.n == nm+"/T") {
+						continue
+					}
+					ps = append(ps, poly{name: e.n, family: "onsplit/short-walls-on-lines", v: e.v, mid: true})
+				}
+			}
+		}
 	}
 	return ps
+}
+
+// splitLines returns the interior quadtree split lines (all levels) of the polygon bounding box
+// [x0,x1]x[y0,y1], computed by the library itself (root box of Mesh2D, quadrants down to qtMaxLevel).
+func splitLines(x0, x1, y0, y1 float64) (lx, ly []float64) {
+	s, err := sdf.Polygon2D([]v2.Vec{{X: x0, Y: y0}, {X: x1, Y: y0}, {X: x1, Y: y1}, {X: x0, Y: y1}})
+	if err != nil {
+		panic(err)
+	}
+	root := sdf.VerifQtDump(s)
+	var rec func(b sdf.Box2, level int)
+	rec = func(b sdf.Box2, level int) {
+		lx = append(lx, b.Min.X, b.Max.X)
+		ly = append(ly, b.Min.Y, b.Max.Y)
+		if level == sdf.VerifQtMaxLevel {
+			return
+		}
+		for _, q := range sdf.VerifQuadrants(b) {
+			rec(q, level+1)
+		}
+	}
+	rec(root.Box, 0)
+	in := func(l []float64, lo, hi float64) []float64 {
+		var out []float64
+		for _, x := range uniq(l) {
+			if x > lo && x < hi {
+				out = append(out, x)
+			}
+		}
+		return out
+	}
+	return in(lx, x0, x1), in(ly, y0, y1)
+}
+
+// stairs: the region under a staircase descending from (x1,y1) to (x0,y0).
+// mode 0: at every corner (lx[i], ly[i]) a short tread ON the line y=ly[i] ends in a short riser ON
+// the line x=lx[i] (both shorter than a deepest cell); mode k=1,2: every riser and tread lies on a
+// split line and spans exactly k deepest cells.
+func stairs(x0, x1, y0, y1 float64, lx, ly []float64, mode int) []v2.Vec {
+	m := len(lx)
+	if len(ly) < m {
+		m = len(ly)
+	}
+	v := []v2.Vec{{X: x0, Y: y0}, {X: x1, Y: y0}, {X: x1, Y: y1}}
+	if m < 2 {
+		return append(v, v2.Vec{X: x0, Y: y1})
+	}
+	cx, cy := lx[1]-lx[0], ly[1]-ly[0]
+	if mode == 0 {
+		cur := y1
+		for i := m - 1; i >= 0; i-- {
+			v = append(v, v2.Vec{X: lx[i] + 0.4*cx, Y: cur}, v2.Vec{X: lx[i] + 0.4*cx, Y: ly[i]},
+				v2.Vec{X: lx[i], Y: ly[i]}, v2.Vec{X: lx[i], Y: ly[i] - 0.6*cy})
+			cur = ly[i] - 0.6*cy
+		}
+		return append(v, v2.Vec{X: x0, Y: cur})
+	}
+	i := m - 1
+	v = append(v, v2.Vec{X: lx[i], Y: y1}, v2.Vec{X: lx[i], Y: ly[i]})
+	for i-mode >= 0 {
+		v = append(v, v2.Vec{X: lx[i-mode], Y: ly[i]}, v2.Vec{X: lx[i-mode], Y: ly[i-mode]})
+		i -= mode
+	}
+	return append(v, v2.Vec{X: x0, Y: ly[i]})
+}
+
+func cls(m map[float64]string, x float64) string {
+	if c, ok := m[x]; ok {
+		return c
+	}
+	return "mid"
+}
+
+func transpose(v []v2.Vec) []v2.Vec {
+	out := make([]v2.Vec, len(v))
+	for i, p := range v {
+		out[len(v)-1-i] = v2.Vec{X: p.Y, Y: p.X} // reversed: keeps the orientation
+	}
+	return out
 }
 
 func rot90(v []v2.Vec) []v2.Vec {
@@ -621,6 +728,18 @@ func check(c *Ctx, r *Report) error {
 		}
 		xs := uniq(append(append(append(append([]float64{}, vxs...), ti.xs...), boxx...), farx...))
 		ys := uniq(append(append(append(append([]float64{}, vys...), ti.ys...), boxy...), fary...))
+		if pl.mid {
+			mids := func(l []float64) []float64 {
+				out := append([]float64{}, l...)
+				for i := 0; i+1 < len(l); i++ {
+					if m := l[i] + (l[i+1]-l[i])/2; m > l[i] && m < l[i+1] && math.Abs(l[i]) < 1e5*size+scale && math.Abs(l[i+1]) < 1e5*size+scale {
+						out = append(out, m)
+					}
+				}
+				return uniq(out)
+			}
+			xs, ys = mids(xs), mids(ys)
+		}
 		var pts []qpoint
 		for _, q := range pl.extra {
 			pts = append(pts, qpoint{q, "corpus"})
@@ -631,7 +750,7 @@ func check(c *Ctx, r *Report) error {
 		} else if full {
 			for _, y := range ys {
 				for _, x := range xs {
-					pts = append(pts, qpoint{v2.Vec{X: x, Y: y}, "grid/x-" + class[x] + "/y-" + classY[y]})
+					pts = append(pts, qpoint{v2.Vec{X: x, Y: y}, "grid/x-" + cls(class, x) + "/y-" + cls(classY, y)})
 				}
 			}
 		} else {
@@ -643,7 +762,7 @@ func check(c *Ctx, r *Report) error {
 			for _, y := range ys {
 				for k := 0; k < per; k++ {
 					x := xs[rng.Intn(len(xs))]
-					pts = append(pts, qpoint{v2.Vec{X: x, Y: y}, "grid/x-" + class[x] + "/y-" + classY[y]})
+					pts = append(pts, qpoint{v2.Vec{X: x, Y: y}, "grid/x-" + cls(class, x) + "/y-" + cls(classY, y)})
 				}
 			}
 		}
